@@ -101,7 +101,7 @@ def run(tier, seed):
                            "replay": "shakespeare -n -p with the -D list on m.cfg, and on the reference"})
     for idx in L.global_indices(vals["Opp"], off["pp"]):
         rec = cases["pp"][idx]
-        report("preprocessing-crash-or-hang" if rec.get("Panic") else "preprocessing-result-wrong", "parseDefines / parameter / preprocReplace: definitions %s + %s give %s and %s -> %s / undefined %s" % (
+        report(("parser-fatal-error" if rec["Panic"].startswith("fatal") else "preprocessing-crash-or-hang") if rec.get("Panic") else "preprocessing-result-wrong", "parseDefines / parameter / preprocReplace: definitions %s + %s give %s and %s -> %s / undefined %s" % (
             rec["Case"]["Defines"], rec["Case"]["Params"], rec["PVars"], rec["Case"]["Strs"], rec["Outs"], rec["Errs"]),
             {"kind": "failing-input", "input": rec, "replay": "cmd.VerifC20Preproc(Defines, parameter clauses, Strs)"})
     for idx in L.global_indices(vals["Ograph"], off["graph"]):
